@@ -933,8 +933,8 @@ func ModifyRegister(register *object.Register, in ast.Node) (ast.Node, bool) {
 			return nil, false
 		}
 	case *ast.CallExpression:
-		// ast.Modify does not visit the callee: n(...) would look n up in the environment, where the register isn't.
-		if id, ok := in.Function.(*ast.Identifier); ok && id.Literal() == register.Literal() {
+		// n(...): calling an integer is an error that names the variable; keep n a plain variable for that.
+		if in.Function == ast.Node(register) {
 			return nil, false
 		}
 	case *ast.FunctionLiteral:
